@@ -125,6 +125,9 @@ def monitor(ctx, ops, segs, src):
                      f"{op[0]} returned with the pin sounding={sounding} get_state()={state}", replay)
         if op[0] == "pt" and float(op[1].v) <= 0 and tones:
             ctx.fail("buzzer:tone-for-nonpositive", "play_tone with frequency <= 0 started a tone", replay)
+        # get_state()/get_frequency() report the tone CURRENTLY sounded: after play_tone / stop they agree with the pin
+        if op[0] in ("pt", "stop") and len(pr) == 3 and state != sounding:
+            ctx.fail("buzzer:state-disagrees-with-pin", f"{op[0]} returned with the pin sounding={sounding} while get_state()={state}", replay)
         if op[0] == "beep" and op[1] is not None and float(op[1].v) > 0:
             n = max(0, int(op[4].v))
             if len(tones) != n:
